@@ -34,9 +34,9 @@ type SKCase struct {
 	Indexed []string    `json:"indexed"` // columns carrying the skip index
 	Rows    [][]*string `json:"rows"`    // in storage order (min-max "sorted" mode: sorted by Indexed[0] by the check)
 	Cuts    []int       `json:"cuts,omitempty"`
-	Sorted  bool        `json:"sorted,omitempty"`  // min-max: one indexed column, rows sorted by it, boundary layout
-	Tokens  string      `json:"tokens,omitempty"`  // bloom: split characters handed to the writer ("" = what a DDL-created index gets)
-	From    int         `json:"from,omitempty"`    // first fragment of the range handed to Scan
+	Sorted  bool        `json:"sorted,omitempty"` // min-max: one indexed column, rows sorted by it, boundary layout
+	Tokens  string      `json:"tokens,omitempty"` // bloom: split characters handed to the writer ("" = what a DDL-created index gets)
+	From    int         `json:"from,omitempty"`   // first fragment of the range handed to Scan
 	Cond    string      `json:"cond"`
 }
 
